@@ -116,6 +116,7 @@ mutual
       | .trapExit body => afterSimple ctx { s with exitTrap := some body, status := 0 } .continue_
       | .trapSig body => afterSimple ctx { s with sigTrap := some body, status := 0 } .continue_
       | .raise n => afterSimple ctx { s with pending := true, status := n } .continue_
+      | .raiseErr => ({ s with pending := true }, expansionErrorS ctx { s with pending := true })
       | .group body => specList fuel ctx s body
       | .subshell body =>
         let (c1, r) := specList fuel ctx.sub s body
